@@ -52,24 +52,27 @@ Definition conv_special (v : jv) : jv :=
   | _ => v
   end.
 
+(* the dictionary update_conf merges the user's mapping into: the existing value when it is
+   itself a dictionary, an empty one otherwise (no value yet, or a scalar / list / None default:
+   the user's mapping then takes its place). *)
+Definition merge_base (dv : option jv) : dict :=
+  match dv with Some (JDict dd) => dd | _ => [] end.
+
 (* the value stored at config[key] when the user value is [uv] and config.get(key) = [dv].
-   None = the Python code raises (TypeError: item assignment on a non-dict default). *)
+   The option is kept for the callers; since the repair of update_conf ("recurse only into a
+   default that is a Mapping") no case raises any more: Proofs/JsonP.v merge_val_total. *)
 Fixpoint merge_val (dv : option jv) (uv : jv) {struct uv} : option jv :=
   match uv with
   | JDict ud =>
-    match (match dv with None => Some [] | Some (JDict dd) => Some dd | Some _ => None end) with
-    | None => None
-    | Some dd =>
-      (fix go (l : dict) (acc : dict) {struct l} : option jv :=
-         match l with
-         | [] => Some (JDict acc)
-         | (k, v) :: rest =>
-           match merge_val (lookup k acc) v with
-           | None => None
-           | Some nv => go rest (set_key k nv acc)
-           end
-         end) ud dd
-    end
+    (fix go (l : dict) (acc : dict) {struct l} : option jv :=
+       match l with
+       | [] => Some (JDict acc)
+       | (k, v) :: rest =>
+         match merge_val (lookup k acc) v with
+         | None => None
+         | Some nv => go rest (set_key k nv acc)
+         end
+       end) ud (merge_base dv)
   | _ => Some (conv_special uv)
   end.
 
